@@ -231,6 +231,22 @@ func Run(ctx *common.Ctx) int {
 	_ = os.Setenv("VERIF_SCRATCH", ctx.Work)
 	var tasks []e1.Task
 	outs := []string{"", "rel", "nested/a/b", "abs", "existing"}
+	type cfgT struct {
+		s, n, W, pol int
+		o            string
+	}
+	var extra []cfgT
+	// more files than twice the writers (buffers handed out by sample index would be reused), under all three default policies
+	for _, pol := range []int{0, 1, 2, 3} {
+		extra = append(extra, cfgT{5, 64, 2, pol, "rel"}, cfgT{6, 64, 2, pol, ""}, cfgT{7, 64, 3, pol, "rel"}, cfgT{9, 64, 2, pol, "nested/a/b"}, cfgT{3, 64, 2, pol, "rel"}, cfgT{4, 64, 3, pol, ""})
+	}
+	for _, c := range extra {
+		if c.pol == 0 && c.s <= 4 {
+			continue
+		}
+		p, _ := json.Marshal(Params{S: c.s, N: c.n, Output: c.o})
+		tasks = append(tasks, e1.Task{Check: "C20", Name: fmt.Sprintf("c20/s%d/n%d/W%d/out=%s/b1/p%d", c.s, c.n, c.W, c.o, c.pol), Params: p, Bound: 1, Policy: c.pol, W: c.W, NShards: 1, CostAll: true})
+	}
 	for _, s := range []int{1, 2, 3, 4} {
 		for _, n := range []int{64, 20000} {
 			for _, W := range []int{1, 2, 3} {
@@ -362,7 +378,7 @@ func Run(ctx *common.Ctx) int {
 		"evaluations":                   m.Execs + e2e,
 		"distinct_nontrivial":           len(m.States),
 		"samples":                       samples,
-		"rule": "the real (instrumented) rdgen main() runs with os.Args set in a scratch working directory; crypto/rand.Reader is replaced by a deterministic never-repeating stream whose Read is a scheduling point; every schedule with at most d non-default scheduling decisions is executed for s in 1..4 files, W in 1..3 writers, five output forms; " +
+		"rule": "the real (instrumented) rdgen main() runs with os.Args set in a scratch working directory; crypto/rand.Reader is replaced by a deterministic never-repeating stream whose Read is a scheduling point; every schedule with at most d non-default scheduling decisions is executed for s in 1..4 (and 5,6,7,9) files, W in 1..3 writers, five output forms; " +
 			"main's return is process exit: the scratch tree is examined at that instant (exactly random0..random(s-1).bin, n/8 bytes each, pairwise different, inside the requested directory, nothing elsewhere)",
 		"outcome_signatures":       sigs,
 		"tasks":                    len(m.Results),
@@ -371,7 +387,7 @@ func Run(ctx *common.Ctx) int {
 		"instrumentation":          info.Counts,
 		"max_points_per_execution": m.MaxPoints,
 		"end_to_end_runs":          e2e,
-		"bounds":                   "deviation bound 1 (thorough: 2 for s<=3, n=64); W<=3; s<=4",
+		"bounds":                   "deviation bound 1 (thorough: 2 for s<=3, n=64); W<=3; s<=4 in five output forms under the ascending-id policy, s in {3..9} under all three default policies",
 		"exhaustive":               len(m.Capped) == 0 && len(m.ToolErrors) == 0,
 	}
 	return ctx.Finish("model_checking", cov, []string{"file operations (MkdirAll, OpenFile, Write, Close) and the random source's Read are scheduling points; the real file system under a scratch directory is the observed state",
